@@ -531,6 +531,9 @@ def run(tier):
         prog = ir.Program(units, cfg)
         rep.add_stats(prog)
         z1(prog, rep)
+        # a wipe covers its object and nothing beyond it (C15's bounded-copy rule on the hash units' stack scratch)
+        from . import c15 as _c15
+        _c15.j3(prog, rep, units=tuple(HASH_UNITS))
         z2(prog, rep)
         z3(prog, rep)
         z4(prog, rep)
